@@ -273,6 +273,25 @@ func (c18) Exec(script interface{}, c *core.Ctx) {
 	default:
 		w = packet.IOWriter(sink)
 	}
+	// another adapter alive in the same process: one packet through it before and one after
+	// the call under test; it must see exactly those two
+	by1, by2 := c18Packet(3000, s.Salt+3), c18Packet(3001, s.Salt+3)
+	bySink := parties.NewSimSink(parties.SinkPlan{FailAt: -1}, c)
+	byW := packet.IOWriter(bySink)
+	if !c.Call("packetWriter.Write(bystander)", func() { byW.Write(by1[:]) }) {
+		return
+	}
+	defer func() {
+		if c.Failed() {
+			return
+		}
+		if !c.Call("packetWriter.Write(bystander)", func() { byW.Write(by2[:]) }) {
+			return
+		}
+		if len(bySink.Log) != 2 || bySink.Log[0] != by1 || bySink.Log[1] != by2 {
+			c.Fail("adapters_independent", "another_adapter_changed", len(bySink.Log), "its own two packets")
+		}
+	}()
 	c.Log("c18 mode=%s adapter=%s packets=%d tail=%d sink=%d/%s", s.Mode, s.Adapter, s.Packets, s.Tail, s.Sink.FailAt, s.Sink.Kind)
 	c.Unit("packets_offered", int64(s.Packets))
 
